@@ -426,6 +426,174 @@ Section StoreFacts.
     - intros o Ho. eapply NoDup_app_disjoint; eauto.
   Qed.
 
+  (* ---------- salvage: what is stored when a task of the generation failed ---------- *)
+  Lemma salvage_mono : forall done s f s', salvage dump_sub done s f = Ok s' -> smono (fouts f) s s'.
+  Proof.
+    intros done s f s' H. unfold salvage in H. destruct (is_mapped f).
+    - eapply smono_weaken with (n := []); [|intros x []].
+      destruct dump_sub; [inversion H; apply smono_refl|eapply post_elems_mono; eauto].
+    - destruct (filter (same_func f) done) as [|[t0 r0] l]; [inversion H; apply smono_refl|].
+      destruct l; [|destruct r0; inversion H; apply smono_refl].
+      destruct r0 as [outs| |]; try (inversion H; apply smono_refl).
+      eapply smono_weaken; [eapply dump_single_mono; eauto|].
+      intros x Hx. apply in_map_iff in Hx. destruct Hx as ([o v] & <- & Hin). simpl.
+      eapply in_combine_l; eauto.
+  Qed.
+
+  Lemma salvage_all_mono : forall done fs s s', salvage_all dump_sub done fs s = Ok s' ->
+    smono (flat_map fouts fs) s s'.
+  Proof.
+    intros done. induction fs as [|f fs IH]; intros s s' H; simpl in H.
+    - inversion H. apply smono_refl.
+    - destruct (salvage dump_sub done s f) as [s1|e] eqn:E; simpl in H; [|discriminate].
+      simpl. eapply smono_trans; [eapply salvage_mono; eauto|eapply IH; eauto].
+  Qed.
+
+  Lemma salvage_all_app : forall done a b s s', salvage_all dump_sub done (a ++ b) s = Ok s' ->
+    exists sm, salvage_all dump_sub done a s = Ok sm /\ salvage_all dump_sub done b sm = Ok s'.
+  Proof.
+    intros done. induction a as [|f a IH]; intros b s s' H; simpl in *.
+    - exists s. auto.
+    - destruct (salvage dump_sub done s f) as [s1|e]; simpl in *; [|discriminate]. apply IH. exact H.
+  Qed.
+
+  Lemma salvage_holds : forall done s f s' t outs, salvage dump_sub done s f = Ok s' ->
+    In (t, TDone outs) done -> t_f t = f ->
+    (t_map t <> None <-> is_mapped f = true) -> NoDup (fouts f) ->
+    (is_mapped f = false -> filter (same_func f) done = [(t, TDone outs)]) ->
+    (DS -> t_map t <> None -> holds s t outs) ->
+    holds s' t outs.
+  Proof.
+    intros done s f s' t outs H Hin Hf Hkind Hnd Huniq Hpre. unfold salvage in H.
+    assert (Hmine : In (t, TDone outs) (filter (same_func f) done)).
+    { apply filter_In. split; [exact Hin|]. unfold same_func. simpl. rewrite Hf. apply str_eqb_refl. }
+    destruct (is_mapped f) eqn:Em.
+    - assert (Hm : t_map t <> None) by (apply Hkind; reflexivity).
+      destruct dump_sub eqn:Eds.
+      + inversion H; subst. apply Hpre; [exact Eds|exact Hm].
+      + eapply post_elems_holds; eauto.
+    - assert (Hm : t_map t = None).
+      { destruct (t_map t) eqn:Et; [|reflexivity]. exfalso.
+        assert (X : false = true) by (apply Hkind; discriminate). discriminate. }
+      rewrite (Huniq eq_refl) in H.
+      intros j o v Ho Hv. rewrite Hm. eapply dump_single_get; [exact H| |].
+      + subst f. clear -Hnd. revert outs. induction (fouts (t_f t)) as [|o os IH]; intros outs; [constructor|].
+        destruct outs as [|v vs]; [constructor|]. simpl. inversion Hnd; subst. constructor.
+        * intro Hx. apply H1. apply in_map_iff in Hx. destruct Hx as ([o' v'] & E & Hin). simpl in E. subst o'.
+          eapply in_combine_l; eauto.
+        * apply IH. assumption.
+      + subst f. clear -Ho Hv. revert j outs Ho Hv. induction (fouts (t_f t)) as [|o0 os IH]; intros j outs Ho Hv.
+        * destruct j; discriminate.
+        * destruct outs as [|v0 vs]; [destruct j; discriminate|]. destruct j as [|j]; simpl in *.
+          -- inversion Ho; inversion Hv; subst. left. reflexivity.
+          -- right. eapply IH; eauto.
+  Qed.
+
+  (* the done prefix *)
+  Lemma take_done_incl : forall rs tr, In tr (take_done rs) -> In tr rs /\ is_done (snd tr) = true.
+  Proof.
+    induction rs as [|x rs IH]; intros tr H; simpl in H; [destruct H|].
+    destruct (is_done (snd x)) eqn:E; [|destruct H]. destruct H as [<-|H]; [split; [now left|exact E]|].
+    destruct (IH _ H). split; [now right|assumption].
+  Qed.
+
+  Lemma take_done_all : forall rs, first_fail rs = None -> take_done rs = rs.
+  Proof.
+    unfold first_fail. induction rs as [|x rs IH]; intros H; simpl in *; [reflexivity|].
+    destruct (is_done (snd x)) eqn:E; simpl in H; [|discriminate]. f_equal. apply IH. exact H.
+  Qed.
+
+  Lemma take_done_prefix : forall rs, exists rest, rs = take_done rs ++ rest.
+  Proof.
+    induction rs as [|x rs [rest IH]]; simpl; [exists []; reflexivity|].
+    destruct (is_done (snd x)); [exists rest; simpl; now rewrite <- IH|exists (x :: rs); reflexivity].
+  Qed.
+
+  (* sequential path: every done result precedes the failure *)
+  Lemma exec_tasks_seq_done : forall ts st st' rs, exec_tasks ubody dump_sub true ts st = (st', rs) ->
+    forall tr, In tr rs -> is_done (snd tr) = true -> In tr (take_done rs).
+  Proof.
+    induction ts as [|t ts IH]; intros st st' rs H tr Hin Hd; simpl in H.
+    - inversion H; subst. destruct Hin.
+    - destruct (exec_task ubody dump_sub st t) as [st1 r] eqn:E.
+      destruct (is_done r) eqn:Er; simpl in H.
+      + destruct (exec_tasks ubody dump_sub true ts st1) as [st2 rs'] eqn:E2. inversion H; subst.
+        simpl. rewrite Er. destruct Hin as [<-|Hin]; [now left|right; eapply IH; eauto].
+      + inversion H; subst. destruct Hin as [<-|[]]. simpl in Hd. congruence.
+  Qed.
+
+  Lemma exec_tasks_prefix : forall ts st st' rs, exec_tasks ubody dump_sub stop ts st = (st', rs) ->
+    exists rest, ts = map fst rs ++ rest.
+  Proof.
+    induction ts as [|t ts IH]; intros st st' rs H; simpl in H.
+    - inversion H; subst. exists []. reflexivity.
+    - destruct (exec_task ubody dump_sub st t) as [st1 r] eqn:E.
+      destruct (is_done r || negb stop).
+      + destruct (exec_tasks ubody dump_sub stop ts st1) as [st2 rs'] eqn:E2. inversion H; subst.
+        destruct (IH _ _ _ E2) as [rest ->]. exists rest. reflexivity.
+      + inversion H; subst. exists ts. reflexivity.
+  Qed.
+
+  (* a function without MapSpec inputs has ONE task in its generation (function names are distinct) *)
+  Definition of_name (f : mfunc) (t : task) : bool := str_eqb (fname (t_f t)) (fname f).
+
+  Lemma gen_tasks_single : forall shapes gen e ts f, gen_tasks shapes gen e = Ok ts ->
+    NoDup (map fname gen) -> In f gen -> is_mapped f = false -> length (filter (of_name f) ts) <= 1.
+  Proof.
+    intros shapes gen e ts f H Hnd Hf Hm. unfold gen_tasks in H.
+    destruct (mapM _ gen) as [tss|x] eqn:E; simpl in H; [|discriminate]. inversion H; subst. clear H.
+    apply mapM_forall2 in E.
+    assert (Hnone : forall gen' tss', Forall2 (fun a b => (do kw <- func_kwargs a e; tasks_of shapes a kw) = Ok b) gen' tss' ->
+                      ~ In (fname f) (map fname gen') -> filter (of_name f) (concat tss') = []).
+    { intros gen' tss' F. induction F as [|g ts0 gen' tss' Hg _ IH]; intros Hn; simpl; [reflexivity|].
+      rewrite filter_app. rewrite IH; [|intro Hx; apply Hn; right; exact Hx]. rewrite app_nil_r.
+      destruct (func_kwargs g e) as [kw|x]; simpl in Hg; [|discriminate].
+      apply tasks_of_funcs in Hg. clear -Hg Hn. induction Hg as [|t l Ht _ IHl]; simpl; [reflexivity|].
+      unfold of_name at 1. rewrite Ht. destruct (str_eqb (fname g) (fname f)) eqn:Eq.
+      - apply str_eqb_eq in Eq. exfalso. apply Hn. left. exact Eq.
+      - exact IHl. }
+    induction E as [|g ts0 gen' tss' Hg F IH]; simpl; [lia|].
+    simpl in Hnd. inversion Hnd as [|? ? Hnin Hnd']; subst. rewrite filter_app, app_length.
+    destruct Hf as [->|Hf].
+    - rewrite (Hnone _ _ F Hnin). simpl. rewrite Nat.add_0_r.
+      destruct (func_kwargs f e) as [kw|x]; simpl in Hg; [|discriminate].
+      unfold tasks_of in Hg. rewrite Hm in Hg. inversion Hg; subst. simpl. destruct (of_name f _); simpl; lia.
+    - assert (Hne : fname g <> fname f).
+      { intro Eq. apply Hnin. rewrite Eq. apply in_map. exact Hf. }
+      assert (Z : filter (of_name f) ts0 = []).
+      { destruct (func_kwargs g e) as [kw|x]; simpl in Hg; [|discriminate].
+        apply tasks_of_funcs in Hg. clear -Hg Hne. induction Hg as [|t l Ht _ IHl]; simpl; [reflexivity|].
+        unfold of_name at 1. rewrite Ht. destruct (str_eqb (fname g) (fname f)) eqn:Eq.
+        - apply str_eqb_eq in Eq. contradiction.
+        - exact IHl. }
+      rewrite Z. simpl. apply IH; assumption.
+  Qed.
+
+  Lemma filter_same_func_length : forall f (l : list (task * tres)),
+    length (filter (same_func f) l) = length (filter (of_name f) (map fst l)).
+  Proof.
+    intros f. induction l as [|[t r] l IH]; simpl; [reflexivity|].
+    unfold same_func at 1, of_name at 1. simpl. destruct (str_eqb (fname (t_f t)) (fname f)); simpl; now rewrite IH.
+  Qed.
+
+  Lemma single_unique : forall shapes gen e ts st st1 rs1 f t outs,
+    gen_tasks shapes gen e = Ok ts -> exec_tasks ubody dump_sub stop ts st = (st1, rs1) ->
+    NoDup (map fname gen) -> In f gen -> is_mapped f = false ->
+    In (t, TDone outs) (take_done rs1) -> t_f t = f ->
+    filter (same_func f) (take_done rs1) = [(t, TDone outs)].
+  Proof.
+    intros shapes gen e ts st st1 rs1 f t outs Hg Hx Hnd Hf Hm Hin Ht.
+    pose proof (gen_tasks_single _ _ _ _ _ Hg Hnd Hf Hm) as Hlen.
+    destruct (exec_tasks_prefix _ _ _ _ Hx) as [rest1 E1]. destruct (take_done_prefix rs1) as [rest2 E2].
+    assert (Hle : length (filter (same_func f) (take_done rs1)) <= 1).
+    { rewrite filter_same_func_length. rewrite E1, E2 in Hlen. rewrite map_app, <- app_assoc, filter_app, app_length in Hlen.
+      lia. }
+    assert (Hmine : In (t, TDone outs) (filter (same_func f) (take_done rs1))).
+    { apply filter_In. split; [exact Hin|]. unfold same_func. simpl. rewrite Ht. apply str_eqb_refl. }
+    destruct (filter (same_func f) (take_done rs1)) as [|x [|y l]]; [destruct Hmine| |simpl in Hle; lia].
+    destruct Hmine as [->|[]]. reflexivity.
+  Qed.
+
   (* ---------- one generation ---------- *)
   Lemma gen_run_mono : forall shapes gen st st' rs fl, gen_run ubody dump_sub stop shapes gen st = (st', rs, fl) ->
     smono (flat_map fouts gen) (m_store st) (m_store st').
@@ -437,13 +605,8 @@ Section StoreFacts.
     assert (W : smono (flat_map fouts gen) (m_store st) (m_store st1)).
     { eapply smono_weaken; [exact M1|intros x []]. }
     destruct (first_fail rs1) as [[t r]|].
-    - destruct (post_funcs dump_sub rs1 (if stop then [] else funcs_before (t_f t) gen) st1) as [st2|x] eqn:Ep.
-      + inversion H; subst. eapply smono_trans0; [exact M1|].
-        eapply smono_weaken; [eapply post_funcs_mono; eauto|].
-        destruct stop; [intros x []|].
-        clear. induction gen as [|g gen IH]; simpl; [intros x []|].
-        destruct (str_eqb (fname g) (fname (t_f t))); [intros x []|]. simpl.
-        intros x Hx. apply in_app_or in Hx. apply in_or_app. destruct Hx; [now left|right; now apply IH].
+    - destruct (salvage_all dump_sub (take_done rs1) gen (m_store st1)) as [s2|x] eqn:Ep.
+      + inversion H; subst. simpl. eapply smono_trans0; [exact M1|eapply salvage_all_mono; eauto].
       + inversion H; subst. exact W.
     - destruct (post_funcs dump_sub rs1 gen st1) as [st2|x] eqn:Ep.
       + inversion H; subst. eapply smono_trans0; [exact M1|eapply post_funcs_mono; eauto].
@@ -459,7 +622,7 @@ Section StoreFacts.
     destruct (gen_tasks shapes gen (m_env st)) as [ts|x] eqn:Eg; [|inversion H].
     pose proof (gen_tasks_kind _ _ _ _ Eg) as Hk.
     destruct (exec_tasks ubody dump_sub stop ts st) as [st1 rs1] eqn:Ex.
-    destruct (first_fail rs1) as [[t0 r0]|]; [destruct (post_funcs _ _ _ _); inversion H|].
+    destruct (first_fail rs1) as [[t0 r0]|]; [destruct (salvage_all _ _ _ _); inversion H|].
     destruct (post_funcs dump_sub rs1 gen st1) as [st2|x] eqn:Ep; inversion H; subst. clear H.
     pose proof (exec_tasks_results _ _ _ _ _ _ _ Ex) as Hres. rewrite Forall_forall in Hres, Hk.
     specialize (Hres _ Hin). simpl in Hres. destruct (Hk _ Hres) as [Hfg Hkind].
@@ -489,9 +652,9 @@ Section StoreFacts.
       by (intros; eapply exec_tasks_holds; eauto).
     assert (Hno : t_map t = None -> forall o, In o (fouts (t_f t)) -> ~ In o (@nil str)) by (intros Hc; congruence).
     destruct (first_fail rs1) as [[t0 r0]|].
-    - destruct (post_funcs dump_sub rs1 (if stop then [] else funcs_before (t_f t0) gen) st1) as [st2|x] eqn:Ep;
+    - destruct (salvage_all dump_sub (take_done rs1) gen (m_store st1)) as [s2|x] eqn:Ep;
         inversion H; subst; [|apply H1; auto].
-      eapply holds_mono; [apply H1; eauto|eapply post_funcs_mono; eauto|intros Hc; congruence].
+      simpl. eapply holds_mono; [apply H1; eauto|eapply salvage_all_mono; eauto|intros Hc; congruence].
     - destruct (post_funcs dump_sub rs1 gen st1) as [st2|x] eqn:Ep; inversion H; subst; [|apply H1; auto].
       eapply holds_mono; [apply H1; eauto|eapply post_funcs_mono; eauto|intros Hc; congruence].
   Qed.
@@ -507,8 +670,39 @@ Section StoreFacts.
     assert (G : Forall (fun tr => In (t_f (fst tr)) gen) rs1).
     { rewrite Forall_forall in *. intros tr Htr. apply Hk. apply Hres. exact Htr. }
     destruct (first_fail rs1) as [[t r]|].
+    - destruct (salvage_all _ _ _ _); inversion H; subst; exact G.
     - destruct (post_funcs _ _ _ _); inversion H; subst; exact G.
-    - destruct (post_funcs _ _ _ _); inversion H; subst; exact G.
+  Qed.
+
+  (* the failing generation: every result that precedes the failing task in submission order is in the store *)
+  Lemma gen_run_prefix_kept : forall shapes gen st st' rs e c,
+    gen_run ubody dump_sub stop shapes gen st = (st', rs, Some (FailUser e c)) ->
+    NoDup (flat_map fouts gen) -> NoDup (map fname gen) ->
+    forall t outs, In (t, TDone outs) (take_done rs) -> holds (m_store st') t outs.
+  Proof.
+    intros shapes gen st st' rs e c H Hnd Hnames t outs Hin. unfold gen_run in H.
+    destruct (gen_tasks shapes gen (m_env st)) as [ts|x] eqn:Eg; [|inversion H].
+    pose proof (gen_tasks_kind _ _ _ _ Eg) as Hk.
+    destruct (exec_tasks ubody dump_sub stop ts st) as [st1 rs1] eqn:Ex.
+    destruct (first_fail rs1) as [[t0 r0]|]; [|destruct (post_funcs _ _ _ _); inversion H].
+    destruct (salvage_all dump_sub (take_done rs1) gen (m_store st1)) as [s2|x] eqn:Ep; inversion H; subst. clear H.
+    simpl. destruct (take_done_incl _ _ Hin) as [Hin1 _].
+    pose proof (exec_tasks_results _ _ _ _ _ _ _ Ex) as Hres. rewrite Forall_forall in Hres, Hk.
+    specialize (Hres _ Hin1). simpl in Hres. destruct (Hk _ Hres) as [Hfg Hkind].
+    destruct (in_split _ _ Hfg) as (pre & post & Esplit).
+    assert (Hnd' := Hnd). rewrite Esplit in Ep, Hnd'.
+    destruct (salvage_all_app _ _ _ _ _ Ep) as (sa & Ea & Eb). simpl in Eb.
+    destruct (salvage dump_sub (take_done rs) sa (t_f t)) as [sb|x] eqn:Ef; simpl in Eb; [|discriminate].
+    destruct (nodup_flat_inv _ _ _ Hnd') as [Hndf Hdis].
+    eapply holds_mono with (names := flat_map fouts post).
+    - eapply salvage_holds; eauto.
+      + intros Hm. eapply single_unique; eauto.
+      + intros Hd Hm. eapply holds_mono with (names := flat_map fouts pre).
+        * eapply exec_tasks_holds; eauto.
+        * eapply salvage_all_mono; eauto.
+        * intros Hc. congruence.
+    - eapply salvage_all_mono; eauto.
+    - intros _ o Ho. apply Hdis. exact Ho.
   Qed.
 
   (* ---------- the generation loop ---------- *)
@@ -569,7 +763,51 @@ Section StoreFacts.
         * eapply IH; eauto.
   Qed.
 
+  Lemma gens_run_prefix_kept : forall shapes gens st st' tr fl,
+    gens_run ubody dump_sub stop shapes gens st = (st', tr, fl) ->
+    (fl = None \/ exists e c, fl = Some (FailUser e c)) ->
+    NoDup (flat_map fouts (concat gens)) -> NoDup (map fname (concat gens)) ->
+    forall rs t outs, In rs tr -> In (t, TDone outs) (take_done rs) -> holds (m_store st') t outs.
+  Proof.
+    intros shapes. induction gens as [|g gs IH]; intros st st' tr fl H Hfl Hnd Hnames rs t outs Hrs Hin; simpl in H.
+    - inversion H; subst. destruct Hrs.
+    - destruct (gen_run ubody dump_sub stop shapes g st) as [[st1 rs1] fl1] eqn:Eg.
+      simpl in Hnd, Hnames. rewrite flat_map_app in Hnd. rewrite map_app in Hnames.
+      destruct fl1 as [x|].
+      + inversion H; subst. destruct Hrs as [->|[]].
+        destruct Hfl as [Hc|(e & c & Hc)]; [discriminate|]. inversion Hc; subst.
+        eapply gen_run_prefix_kept; eauto; [eapply NoDup_app_remove_r; eauto|eapply NoDup_app_remove_r; eauto].
+      + destruct (gens_run ubody dump_sub stop shapes gs st1) as [[st2 rss] fl2] eqn:Er. inversion H; subst.
+        destruct Hrs as [->|Hrs].
+        * destruct (take_done_incl _ _ Hin) as [Hin1 _].
+          eapply holds_mono with (names := flat_map fouts (concat gs)).
+          -- eapply gen_run_complete; eauto. eapply NoDup_app_remove_r; eauto.
+          -- eapply gens_run_mono; eauto.
+          -- intros _ o Ho Hx.
+             pose proof (gen_run_results_funcs _ _ _ _ _ _ Eg) as Hf. rewrite Forall_forall in Hf.
+             specialize (Hf _ Hin1). simpl in Hf.
+             assert (Ho' : In o (flat_map fouts g)) by (apply in_flat_map; eauto).
+             exact (NoDup_app_disjoint _ _ _ _ Hnd Ho' Hx).
+        * eapply IH; eauto; eapply NoDup_app_remove_l; eauto.
+  Qed.
+
   (* ================================================================== theorems *)
+  (* prefix_results_kept (FULL, repaired code): when map raises a user exception (or returns), every result that
+     completed before the failure -- every task of every earlier generation and, in the failing generation, every
+     task that precedes the failing one in submission order -- is in the store; on the sequential path that is
+     every completed invocation of the run. *)
+  Theorem map_prefix_results_kept : forall gens inputs user st tr fl,
+    map_run_f ubody dump_sub stop gens inputs user = (st, tr, fl) ->
+    (fl = None \/ exists e c, fl = Some (FailUser e c)) ->
+    NoDup (flat_map fouts (concat gens)) -> NoDup (map fname (concat gens)) ->
+    forall rs t outs, In rs tr -> In (t, TDone outs) (take_done rs) -> holds (m_store st) t outs.
+  Proof.
+    intros gens inputs user st tr fl H Hfl Hnd Hnames rs t outs Hrs Hin. unfold map_run_f in H.
+    destruct (all_shapes user inputs (concat gens)) as [shapes|x].
+    - eapply gens_run_prefix_kept; eauto.
+    - inversion H; subst. destruct Hrs.
+  Qed.
+
   (* prefix_results_kept, part 1 (both paths, every storage): the results of every invocation of a generation that
      completed (every generation before the failing one) are in the store when map raises / returns *)
   Theorem map_completed_generations_kept : forall gens inputs user st tr fl,
@@ -597,3 +835,43 @@ Section StoreFacts.
     - inversion H; subst. destruct Hrs.
   Qed.
 End StoreFacts.
+
+(* ---------- the sequential path: every completed invocation precedes the failure ---------- *)
+Lemma gen_run_seq_done : forall ubody dump_sub shapes gen st st' rs fl,
+  gen_run ubody dump_sub true shapes gen st = (st', rs, fl) ->
+  forall tr, In tr rs -> is_done (snd tr) = true -> In tr (take_done rs).
+Proof.
+  intros ubody dump_sub shapes gen st st' rs fl H tr Hin Hd. unfold gen_run in H.
+  destruct (gen_tasks shapes gen (m_env st)) as [ts|x]. 2:{ inversion H; subst. destruct Hin. }
+  destruct (exec_tasks ubody dump_sub true ts st) as [st1 rs1] eqn:Ex.
+  assert (G : In tr rs1 -> In tr (take_done rs1)) by (intros; eapply exec_tasks_seq_done; eauto).
+  destruct (first_fail rs1) as [[t r]|].
+  - destruct (salvage_all _ _ _ _); inversion H; subst; auto.
+  - destruct (post_funcs _ _ _ _); inversion H; subst; auto.
+Qed.
+
+Lemma gens_run_seq_done : forall ubody dump_sub shapes gens st st' tr fl,
+  gens_run ubody dump_sub true shapes gens st = (st', tr, fl) ->
+  forall rs x, In rs tr -> In x rs -> is_done (snd x) = true -> In x (take_done rs).
+Proof.
+  intros ubody dump_sub shapes. induction gens as [|g gs IH]; intros st st' tr fl H rs x Hrs Hin Hd; simpl in H.
+  - inversion H; subst. destruct Hrs.
+  - destruct (gen_run ubody dump_sub true shapes g st) as [[st1 rs1] fl1] eqn:Eg. destruct fl1.
+    + inversion H; subst. destruct Hrs as [->|[]]. eapply gen_run_seq_done; eauto.
+    + destruct (gens_run ubody dump_sub true shapes gs st1) as [[st2 rss] fl2] eqn:Er. inversion H; subst.
+      destruct Hrs as [->|Hrs]; [eapply gen_run_seq_done; eauto|eapply IH; eauto].
+Qed.
+
+(* prefix_results_kept on the sequential path, FULL: every invocation that returned is in the store *)
+Theorem map_prefix_results_kept_seq : forall ubody dump_sub gens inputs user st tr fl,
+  map_run_f ubody dump_sub true gens inputs user = (st, tr, fl) ->
+  (fl = None \/ exists e c, fl = Some (FailUser e c)) ->
+  NoDup (flat_map fouts (concat gens)) -> NoDup (map fname (concat gens)) ->
+  forall rs t outs, In rs tr -> In (t, TDone outs) rs -> holds (m_store st) t outs.
+Proof.
+  intros ubody dump_sub gens inputs user st tr fl H Hfl Hnd Hnames rs t outs Hrs Hin.
+  eapply map_prefix_results_kept; eauto.
+  unfold map_run_f in H. destruct (all_shapes user inputs (concat gens)) as [shapes|x].
+  - eapply gens_run_seq_done; eauto.
+  - inversion H; subst. destruct Hrs.
+Qed.
